@@ -696,7 +696,7 @@ func init() {
 	fw.Register(&fw.Property{
 		ID:          "C18",
 		Level:       "fault_enumeration",
-		Rule:        "read faults: for documents of every format (generated by the C01-C06 generators; the last 6 are ~200 KiB) and every offset k in 0..len (every offset when the document has at most 300 bytes, else offsets 0..64, the last 64 and 300 random ones; for TTML up to the end of the root element) the harness reader delivers k bytes and then fails with a non-EOF error, once as (0, err) and once as (m>0, err) together with the last chunk; the reader must return a non-nil error (a reader that stopped reading before the fault is counted separately). write faults: for random rich cue lists and each of the 5 writers, the destination fails at every output offset (all offsets up to 3000 bytes, else 400 edge + 600 random), refusing the chunk or accepting a partial write; the writer must return a non-nil error; without a fault the sink must have received exactly the document, the document must hold a timing line / event / paragraph / TTI block for every cue of the list, and for the line-oriented writers (srt, webvtt, ssa) it must be the beginning of the document of the same list with one more cue appended (every second list ends in white space of some kind). Plus, without any fault, text runs of 2^16-1 .. 2^20 bytes through the four text writers (the run arrives whole or the writer returns an error) and lists of 1, 255, 256, 65 537 cues through every writer and 100 001 cues through the STL writer: the destination must hold every cue. Plus lines of 2^16-100..2^20 bytes in srt/webvtt/ssa (error or complete parse), the file helpers (missing input, missing directory, EISDIR for every extension, ENOSPC via a symlink to /dev/full through Subtitles.Write and the CLI) and, in the thorough tier, strace ENOSPC injection on the CLI's output writes. distinct_nontrivial = distinct documents/lists; events count the faults injected.",
+		Rule:        "read faults: for documents of every format (generated by the C01-C06 generators; the last 6 are ~200 KiB) and every offset k in 0..len (every offset when the document has at most 300 bytes, else offsets 0..64, the last 64 and 300 random ones; for TTML up to the end of the root element) the harness reader delivers k bytes and then fails with a non-EOF error (one of eight values, two of which wrap io.EOF without being it), once as (0, err) and once as (m>0, err) together with the last chunk; the reader must return a non-nil error (a reader that stopped reading before the fault is counted separately). write faults: for random rich cue lists and each of the 5 writers, the destination fails at every output offset (all offsets up to 3000 bytes, else 400 edge + 600 random), refusing the chunk or accepting a partial write; the writer must return a non-nil error; without a fault the sink must have received exactly the document, the document must hold a timing line / event / paragraph / TTI block for every cue of the list, and for the line-oriented writers (srt, webvtt, ssa) it must be the beginning of the document of the same list with one more cue appended (every second list ends in white space of some kind). Plus, without any fault, text runs of 2^16-1 .. 2^20 bytes through the four text writers (the run arrives whole or the writer returns an error) and lists of 1, 255, 256, 65 537 cues through every writer and 100 001 cues through the STL writer: the destination must hold every cue. Plus lines of 2^16-100..2^20 bytes in srt/webvtt/ssa (error or complete parse), the file helpers (missing input, missing directory, EISDIR for every extension, ENOSPC via a symlink to /dev/full through Subtitles.Write and the CLI) and, in the thorough tier, strace ENOSPC injection on the CLI's output writes. distinct_nontrivial = distinct documents/lists; events count the faults injected.",
 		Assumptions: []string{"a fault is an error other than io.EOF", "for TTML only faults before the end of the root element must be reported"},
 		Cases:       func(tier string) int64 { return 2*tierN(tier, 18, 360) + 4 },
 		Anchors:     []string{"ReadFromSRT", "ReadFromWebVTT", "ReadFromSSAWithOptions", "readNBytes", "ReadFromTTML", "ReadFromTeletext", "WriteToSRT", "WriteToWebVTT", "WriteToSSA", "WriteToSTL", "WriteToTTML", "Open", "Subtitles.Write"},
